@@ -1685,3 +1685,72 @@ func ruleC20NilOnlyForNil(c *Ctx) {
 		c.R.OK(rule, "none", c.P.Pos(cl.Pos()), "the clone family produces no nil container of subschemas")
 	}
 }
+
+func init() {
+	p := Properties["C17"]
+	p.Rules = append(p.Rules, Rule{"C17/one-leading-slash", ruleC17OneLeadingSlash})
+}
+
+// A JSON Pointer is "/" tok "/" tok ...: the parser removes exactly the first character before it splits at "/".
+// Empty tokens are tokens ("//a" names the member "" and then "a"); a function that removes every leading slash
+// (TrimLeft, Trim) makes "//$defs/A" mean "/$defs/A".
+func ruleC17OneLeadingSlash(c *Ctx) {
+	const rule = "C17/one-leading-slash"
+	parse := c.bySignature(rule, "pointer-parser", "RES", func(s *types.Signature) bool {
+		if s.Recv() != nil || s.Params().Len() != 1 || s.Results().Len() != 2 || !tString(s.Params().At(0).Type()) {
+			return false
+		}
+		sl, ok := s.Results().At(0).Type().Underlying().(*types.Slice)
+		return ok && tString(sl.Elem())
+	})
+	if parse == nil {
+		c.R.Unresolved(rule, "JSON Pointer parser (func(string) ([]string, error))")
+		return
+	}
+	n := 0
+	for _, fi := range c.familyInstrs(parse) {
+		call, ok := fi.I.(*ssa.Call)
+		if !ok {
+			continue
+		}
+		key := core.CalleeKey(&call.Call)
+		if key != "strings.Split" && key != "strings.SplitSeq" && key != "strings.SplitN" {
+			continue
+		}
+		if sep, ok := constString(call.Call.Args[1]); !ok || sep != "/" {
+			continue
+		}
+		n++
+		okOne, how := false, "the whole pointer"
+		for _, src := range append(traceSources(call.Call.Args[0]), call.Call.Args[0]) {
+			switch x := src.(type) {
+			case *ssa.Slice:
+				// ptr[1:]
+				lo, isConst := x.Low.(*ssa.Const)
+				if isConst && lo.Value != nil && lo.Value.String() == "1" && x.High == nil {
+					okOne = true
+				} else {
+					how = "a slice of the pointer other than [1:]"
+				}
+			case *ssa.Call:
+				switch k := core.CalleeKey(&x.Call); k {
+				case "strings.TrimPrefix":
+					if s, ok := constString(x.Call.Args[1]); ok && s == "/" {
+						okOne = true
+					}
+				case "strings.TrimLeft", "strings.Trim", "strings.TrimLeftFunc", "strings.TrimFunc", "strings.TrimRight", "strings.TrimSuffix":
+					how = k + " (which removes every such character, or the wrong end)"
+				}
+			case *ssa.Extract:
+				if cc, ok := x.Tuple.(*ssa.Call); ok && core.CalleeKey(&cc.Call) == "strings.CutPrefix" && x.Index == 0 {
+					if s, ok := constString(cc.Call.Args[1]); ok && s == "/" {
+						okOne = true
+					}
+				}
+			}
+		}
+		c.R.Check(okOne, rule, fmt.Sprintf("%s:split#%d", core.FuncName(parse), n), c.pos(call), "exactly the first character of the pointer is removed before it is split at \"/\"",
+			"the pointer is split at \"/\" after removing "+how+" instead of exactly its first character: an empty first token is lost, so \"#//$defs/A\" (member \"\" of the root, which is no subschema) resolves to \"/$defs/A\"")
+	}
+	c.R.Floor(rule, "splits of the pointer at \"/\"", n, 1)
+}
